@@ -369,13 +369,16 @@ structure State where
   pp : List Nat := []              -- potential-parent connect tasks: ticks left
   sr : List Nat := []              -- search-reply tasks connecting to the asker: ticks left
   orphans : List Nat := []         -- race children whose creator was cancelled without ending them: ticks left
-  held : Nat := 0                  -- listeners of the application suspended inside a CLOSED / SessionDestroyed event
-  heldReaders : Nat := 0           -- reader tasks of a closed stream that are suspended inside such a listener
+  held : List Bool := []           -- listeners of the application suspended inside a CLOSED / SessionDestroyed
+                                   -- event; `true`: the reader task of the closed stream is the one that waits
   -- server-derived state
   users : Bool := false            -- some user object / privileged user is stored
   rooms : Bool := false
   params : Bool := false           -- one of the five server-sent distributed parameters is set
   deriving Repr
+
+/-- reader tasks of a closed stream that are suspended inside a listener of the application -/
+def State.heldReaders (st : State) : Nat := (st.held.filter id).length
 
 inductive LoginResult | ok | authError | error
   deriving DecidableEq, Repr
@@ -649,13 +652,12 @@ def step (c : Config) (st : State) : Op → State × List Obs
       -- suspended in the listener; every other reason is noticed by the task of the caller
       if st.conn = .connected ∧ r ≠ .connectFailed ∧ ((r = .eof ∨ r = .readError) → st.reader = true) then
         let x := closeServer r st
-        ({ x.1 with held := x.1.held + 1
-                    heldReaders := x.1.heldReaders + (if r = .eof ∨ r = .readError then 1 else 0) }, x.2)
+        ({ x.1 with held := decide (r = .eof ∨ r = .readError) :: x.1.held }, x.2)
       else (st, [.invalid])
   | .release =>
       -- the listeners return: `disconnect` has nothing left to do (the stream was released before CLOSED was
       -- reported), a reader loop of a released stream ends (connection.py, fix C16-disconnect-releases-stream-first)
-      if st.held ≠ 0 then ({ st with held := 0, heldReaders := 0 }, []) else (st, [.invalid])
+      if st.held ≠ [] then ({ st with held := [] }, []) else (st, [.invalid])
   | .connect =>
       if st.started ∧ st.stopped = false ∧ st.conn = .closed ∧ st.wd.isSleeping = false then doConnect c st
       else (st, [.invalid])
